@@ -61,7 +61,11 @@ def verify_case(repo, qualname, case_index, timeout_ms=10000, want_models=True):
                                                % (qualname.split('.', 1)[-1], case.name), 'vacuity',
                                                'sat' if verdict == 'vacuous' else 'unsat', 'z3', 0.0,
                                                fn=qualname, case=case.name, detail=verdict).to_dict())
+        import os as _os
+        only = _os.environ.get('PYVC_ONLY')
         for o in obls:
+            if only and only not in o.name:
+                continue
             ax = list(axioms)
             if solve.uses_decl(list(o.assumptions) + [o.goal], 'val_lt'):
                 ax += val_order_axioms()
